@@ -12,7 +12,7 @@
                                                implies that the far tail is empty.
   All with `e = EPSILON = 9999/10000`.
 -/
-import Statrs.Draft.C16.FisherTwoSided
+import Statrs.Props.C16.FisherTwoSided
 set_option linter.unusedVariables false
 namespace Statrs.Props.C16
 open Statrs Statrs.Gen Statrs.Lemmas.Unimodal Statrs.Lemmas.UnimodalSums
